@@ -1861,6 +1861,8 @@ def concretize(eng, t, env):
             if t[1].endswith("::new_unchecked") and "NonZero" in t[1] and is_const(a0):
                 return ("nonzero", a0)
             inner = a0[1] if a0[0] == "nonzero" and is_const(a0[1]) else (a0 if is_const(a0) else None)
+            if inner is not None and "NonZero" in t[1] and t[1].endswith("::get"):
+                return inner
             if inner is not None and inner[1] != 0 and t[1].endswith("::trailing_zeros"):
                 return ("int", (inner[1] & -inner[1]).bit_length() - 1, "u32")
             if inner is not None and t[1].endswith("::count_ones"):
